@@ -892,7 +892,17 @@ func (e *simEnv) checkHiddenByFilter(res drive.Result, f *refmatch.Flow, tag str
 			continue // outside the probe's own window (serial) / near the end of the listening window
 		}
 		idx := o.TTL - int(e.spec.MinTTL)
-		if idx < 0 || idx >= len(res.Run.Hops) || len(res.Run.Hops[idx].IPAddress) > 0 {
+		if idx < 0 || idx >= len(res.Run.Hops) {
+			continue
+		}
+		if h := res.Run.Hops[idx]; len(h.IPAddress) > 0 {
+			// the hop was filled by another reply. A hidden DESTINATION reply still matters when the hop that was reported
+			// is not the destination (a destination reply replaces a router's): the run then misses its end
+			if o.Dest && !h.IsDest && !v.Serial {
+				e.c.Violate("C04", "dest-reply-hidden-by-filter/"+v.Name+"/"+d.Frame.Class, fmt.Sprintf("%s: hop %d reports %s, not marked as the destination: frame #%d (%s from %s, the destination's answer to probe %d inside its window) was dropped by the capture filter the run installed", tag, o.TTL, hopIP(h.IPAddress), d.Frame.ID, d.Frame.Class, outerSrc(d.Frame.Bytes), o.TTL),
+					map[string]any{"variant": v.Name, "result": fmtRun(res), "frame": fmt.Sprintf("%x", d.Frame.Bytes)})
+				return
+			}
 			continue
 		}
 		e.c.Violate("C02", "reply-hidden-by-filter/"+v.Name+"/"+d.Frame.Class, fmt.Sprintf("%s: hop %d empty: frame #%d (%s from %s, answers probe %d inside its window) was dropped by the capture filter the run installed", tag, o.TTL, d.Frame.ID, d.Frame.Class, outerSrc(d.Frame.Bytes), o.TTL),
